@@ -65,6 +65,11 @@ def _rand_atoms(rng):
         return [rng.choice(ATOMS)]
     if r < 0.4:
         return [rng.choice(["assert", "asserteq"])] * rng.choice([4, 5, 6]) + ([rng.choice(ATOMS)] if rng.random() < 0.5 else [])
+    if r < 0.48:
+        # several different methods called repeatedly: an assertion and a non-assertion both above the duplicate limit, in either order
+        a = [rng.choice(["assert", "asserteq"])] * rng.choice([5, 6])
+        b = [rng.choice(["other", "eq", "print"])] * rng.choice([5, 6, 7])
+        return (a + b) if rng.random() < 0.5 else (b + a)
     return [rng.choice(ATOMS) for _ in range(rng.choice([2, 3, 4, 6]))]
 
 
